@@ -36,6 +36,10 @@ var (
 	_ ast.FuncDeclVisitor    = (*ConstFuncParamAnnotator)(nil)
 	_ ast.FuncDefVisitor     = (*ConstFuncParamAnnotator)(nil)
 	_ ast.FuncCallVisitor    = (*ConstFuncParamAnnotator)(nil)
+	_ ast.UnaryExprVisitor   = (*ConstFuncParamAnnotator)(nil)
+	_ ast.BinaryExprVisitor  = (*ConstFuncParamAnnotator)(nil)
+	_ ast.TernaryExprVisitor = (*ConstFuncParamAnnotator)(nil)
+	_ ast.CastExprVisitor    = (*ConstFuncParamAnnotator)(nil)
 	_ ast.AssignStmtVisitor  = (*ConstFuncParamAnnotator)(nil)
 	_ ast.ConditionalVisitor = (*ConstFuncParamAnnotator)(nil)
 )
@@ -145,6 +149,30 @@ func (a *ConstFuncParamAnnotator) VisitFuncCall(call *ast.FuncCall) ast.VisitRes
 	a.overwriteAttachement()
 
 	return ast.VisitRecurse
+}
+
+// an overloaded operator is a call of the overloading function
+func (a *ConstFuncParamAnnotator) visitOverload(overload *ast.OperatorOverload) ast.VisitResult {
+	if overload != nil && overload.Decl != nil {
+		a.VisitFuncCall(&ast.FuncCall{Func: overload.Decl, Args: overload.Args})
+	}
+	return ast.VisitRecurse
+}
+
+func (a *ConstFuncParamAnnotator) VisitUnaryExpr(expr *ast.UnaryExpr) ast.VisitResult {
+	return a.visitOverload(expr.OverloadedBy)
+}
+
+func (a *ConstFuncParamAnnotator) VisitBinaryExpr(expr *ast.BinaryExpr) ast.VisitResult {
+	return a.visitOverload(expr.OverloadedBy)
+}
+
+func (a *ConstFuncParamAnnotator) VisitTernaryExpr(expr *ast.TernaryExpr) ast.VisitResult {
+	return a.visitOverload(expr.OverloadedBy)
+}
+
+func (a *ConstFuncParamAnnotator) VisitCastExpr(expr *ast.CastExpr) ast.VisitResult {
+	return a.visitOverload(expr.OverloadedBy)
 }
 
 func (a *ConstFuncParamAnnotator) VisitAssignStmt(stmt *ast.AssignStmt) ast.VisitResult {
